@@ -47,7 +47,7 @@ def nat? : PyVal → Option Nat
   | .int i => if i < 0 then none else some i.toNat
   | _ => none
 
-def decodeOp : PyVal → Option (POp String)
+def decodeBase : PyVal → Option (POp String)
   | .list [.str "add", i, j] => do
     let i ← nat? i
     let j ← nat? j
@@ -62,6 +62,14 @@ def decodeOp : PyVal → Option (POp String)
   | .list [.str "names", r] => do pure (.on (← nat? r) .names)
   | .list [.str "iter", r] => do pure (.on (← nat? r) .iter)
   | _ => none
+
+/-- `mkiter r` = `iter(regs[r])` (the iterator gets the next free number), `next k` = `next(it_k)`,
+`drain k` = `list(it_k)`; everything else is a register operation. -/
+def decodeOp : PyVal → Option (IOp String)
+  | .list [.str "mkiter", r] => do pure (.mk (← nat? r))
+  | .list [.str "next", k] => do pure (.ask (← nat? k) .next)
+  | .list [.str "drain", k] => do pure (.ask (← nat? k) .drain)
+  | v => (decodeBase v).map .base
 
 def decodeTable : List PyVal → Option (List (String × String))
   | [] => some []
@@ -83,12 +91,19 @@ def encTags (cs : List C) : PyVal := .list (cs.map fun c => .int c.tag)
 
 def encStrs (l : List String) : PyVal := .list (l.map .str)
 
-def encodeOut : POut String String → PyVal
+def encodeBase : POut String String → PyVal
   | .schema s => .list [.str "schema", .str s.name, encStrs s.aliases, encTags s.columns]
   | .out (.col c) => .list [.str "col", encOptCol c]
   | .out (.popped c) => .list [.str "pop", encOptCol c]
   | .out .indexError => .list [.str "IndexError"]
   | .out (.strs l) => .list [.str "strs", encStrs l]
+
+def encodeOut : IOut String String → PyVal
+  | .base o => encodeBase o
+  | .made k => .list [.str "iter", .int k]
+  | .it (.item x) => .list [.str "item", .str x]
+  | .it .stop => .list [.str "stop"]
+  | .it (.rest l) => .list [.str "rest", encStrs l]
 
 def handle (op : String) (args : List PyVal) : Option (List PyVal) :=
   match op, args with
@@ -97,8 +112,8 @@ def handle (op : String) (args : List PyVal) : Option (List PyVal) :=
     let regs ← schemas.mapM (decodeSchema table)
     let prog ← prog.mapM decodeOp
     let lower ← decodeTable lower
-    let (regs', outs) ← prun (lowerWith lower) regs prog
-    pure [.list (outs.map encodeOut), .list (regs'.map fun s => encTags s.columns)]
+    let (st', outs) ← irun iterSrc (lowerWith lower) { regs := regs, iters := [] } prog
+    pure [.list (outs.map encodeOut), .list (st'.regs.map fun s => encTags s.columns)]
   | _, _ => none
 
 end Drv.C17
